@@ -387,7 +387,8 @@ fn list_tables(conn: &Connection) -> Vec<String> {
 }
 
 /// Serialises the given tables: table name, then every row (all columns; blobs in hex), rows
-/// sorted. Columns holding freshly drawn identifiers (`uuid`) are blanked. `None` = database busy.
+/// sorted. Columns holding freshly drawn identifiers (`uuid`) are blanked; `transactions.raw` is
+/// replaced by the txid and the length. `None` = database busy.
 fn dump_tables(conn: &Connection, tables: &[String]) -> Option<Vec<u8>> {
     use rusqlite::types::ValueRef;
     let mut out = Vec::new();
@@ -411,6 +412,16 @@ fn dump_tables(conn: &Connection, tables: &[String]) -> Option<Vec<u8>> {
                         if cols[i] == "uuid" || cols[i].ends_with("_uuid") {
                             s.push_str("U|");
                             continue;
+                        }
+                        if t == "transactions" && cols[i] == "raw" {
+                            // the serialized transaction carries signatures drawn with fresh randomness
+                            // (PCZT extraction); its identity is the txid, which covers everything else
+                            if let ValueRef::Blob(x) = r.get_ref(i).unwrap() {
+                                if let Ok(tx) = Transaction::read(x, BranchId::Nu5) {
+                                    s.push_str(&format!("x{}:{}|", tx.txid(), x.len()));
+                                    continue;
+                                }
+                            }
                         }
                         match r.get_ref(i).unwrap() {
                             ValueRef::Null => s.push_str("N|"),
@@ -1120,7 +1131,7 @@ fn drive(env: &mut Env, pre: &Path, tables: &Arc<Vec<String>>, tcode: &HashMap<S
     {
         let mut ws = refr.write_steps.clone();
         ws.dedup();
-        let stride = if state >= 2 || env.thorough { 1 } else { (ws.len() / 8).max(1) };
+        let stride = if (2..10).contains(&state) || env.thorough { 1 } else { (ws.len() / 6).max(1) };
         for w in ws.iter().step_by(stride) {
             ks.push(*w);
             ks.push(w.saturating_sub(1));
@@ -1135,6 +1146,16 @@ fn drive(env: &mut Env, pre: &Path, tables: &Arc<Vec<String>>, tcode: &HashMap<S
     ks.retain(|k| *k >= 1 && *k <= kmax);
     ks.sort();
     ks.dedup();
+    // an expensive call (PCZT finalisation re-verifies the proofs): evenly thinned positions
+    let heavy = op.label == "pv_take";
+    if heavy {
+        let cap = if env.thorough { 80 } else { 6 };
+        if ks.len() > cap {
+            let step = ks.len() as f64 / cap as f64;
+            ks = (0..cap).map(|i| ks[(i as f64 * step) as usize]).collect();
+        }
+    }
+    let (n_live_op, n_reader_op) = if heavy { (1, 2) } else { (env.n_live, env.n_reader) };
     for (i, k) in ks.iter().enumerate() {
         let mode = match i % 3 {
             0 => Mode::Delete,
@@ -1173,7 +1194,7 @@ fn drive(env: &mut Env, pre: &Path, tables: &Arc<Vec<String>>, tcode: &HashMap<S
         *env.stats.by_kind.entry("veto").or_insert(0) += 1;
     }
     // ---- live snapshots through a second connection while the call runs
-    for i in 0..env.n_live {
+    for i in 0..n_live_op {
         let mode = if i % 2 == 0 { Mode::Delete } else { Mode::Wal };
         let mut ls: Vec<u64> = (0..4).map(|_| env.rng.range(1, n)).collect();
         if refr.commit_step > 0 {
@@ -1191,7 +1212,7 @@ fn drive(env: &mut Env, pre: &Path, tables: &Arc<Vec<String>>, tcode: &HashMap<S
         *env.stats.by_kind.entry("live").or_insert(0) += 1;
     }
     // ---- a two-statement read on a second connection, writer interleaved
-    for i in 0..env.n_reader {
+    for i in 0..n_reader_op {
         let kind = if i % 4 == 3 { ReaderKind::Unbracketed } else { ReaderKind::Bracketed };
         let mode = if i % 2 == 0 { Mode::Wal } else { Mode::Delete };
         let cs = if refr.commit_step > 0 { refr.commit_step } else { n };
@@ -1299,8 +1320,8 @@ fn main() {
     let no_prove = a.rest.iter().any(|x| x == "--no-prove");
     let only: Option<String> = a.rest.iter().position(|x| x == "--op").map(|i| a.rest[i + 1].clone());
     let dir = if Path::new("/dev/shm").is_dir() { tempfile::tempdir_in("/dev/shm") } else { tempfile::tempdir() }.expect("tempdir");
-    let n_fault = a.budget(8, 120);
-    let n_live = a.budget(3, 12);
+    let n_fault = a.budget(4, 120);
+    let n_live = a.budget(2, 12);
     let n_reader = a.budget(4, 16);
     let variants = a.budget(1, 3) as u64;
     let stats = Stats { runs: 0, by_kind: HashMap::new(), ops: HashMap::new(), busy: 0, skipped: vec![], torn: 0, swallowed: vec![] };
@@ -1417,7 +1438,7 @@ fn main() {
                                     e(pm.take_transaction_for_broadcast(&sb, id))
                                 }),
                             },
-                            vec![&pb, &pc],
+                            if a.thorough() { vec![&pb, &pc] } else { vec![&pb] },
                         ),
                         (
                             OpDef {
